@@ -549,6 +549,7 @@ impl<P: Payload> Sim<P> {
             is_empty: a.is_empty(),
             idat,
             agree,
+            get_some: self.issued.iter().map(|id| a.get(*id).is_some()).collect(),
             get_beyond_none,
             notes,
         }
@@ -564,6 +565,10 @@ pub struct Lookups {
     /// token of get_node_id_at(pos) for pos in 1..count+2 (0 = None, -1 = an id never issued)
     pub idat: Vec<i64>,
     pub agree: bool,
+    /// `get(id).is_some()` for EVERY id ever issued, stale ones included: no expectation is attached
+    /// to this (stale ids are outside "valid calls"), it only enters the cross-build digest of C17
+    #[serde(default)]
+    pub get_some: Vec<bool>,
     pub get_beyond_none: bool,
     pub notes: Vec<String>,
 }
